@@ -206,7 +206,9 @@ func checkGraph(g Graph, recursionAllowed bool, st *fw.Stats) []finding {
 	pr := runProd(text, o)
 	if st != nil {
 		st.Evals++
-		st.Nontrivial++
+		if reenters {
+			st.Nontrivial++
+		}
 		switch {
 		case reenters:
 			st.Outcome("recursion:re-entry-predicted")
